@@ -9,7 +9,7 @@ R-BITS  (a) every bit of the range-proof header byte is examined (union of the c
 """
 from sxlib import *
 from giv import Giv
-from core import Obligation
+from core import Obligation, AnalysisBroken
 
 # group -> list of (kind, function, key / variable)
 #   cond : largest value of `key` accepted by the comparisons of `key` with an integer constant in that function
@@ -37,6 +37,10 @@ GROUPS = {
         ("array", "secp256k1_whitelist_sign", "s"),
         ("array", "secp256k1_whitelist_sign", "pubs"),
         ("field", "secp256k1_whitelist_signature", "data", 32, 1),
+    ]),
+    "DER long-form minimum length": ({"C03"}, [
+        ("condmin", "secp256k1_der_read_len", "*len"),     # `*len < 128` rejects a long form that the short form could carry
+        ("maskeq0", "secp256k1_der_read_len", "b1"),       # `(b1 & 0x80) == 0`: the short form carries 0 .. 0x80 - 1
     ]),
     "surjection input-count bound": ({"C11", "C07"}, [
         ("cond", "secp256k1_surjectionproof_parse", "n_inputs"),
@@ -143,6 +147,21 @@ def sib_obligations(prog):
                     vals.append((None, "%s: no comparison of %s with a constant found" % (s[1], s[2]), f.loc))
                 for (v, loc, txt) in vs:
                     vals.append((v, "%s: `%s`" % (s[1], txt), loc))
+            elif s[0] == "maskeq0":
+                f = prog.fn(s[1])
+                hit = False
+                for b in f.blocks.values():
+                    c = strip(b.cond) if b.cond is not None else None
+                    if kind(c) == "bin" and c[1] in ("==", "!=") and is_int(c[3], 0) and kind(strip(c[2])) == "bin" and strip(c[2])[1] == "&" \
+                            and Giv.key(strip(c[2])[2]) == s[2] and int_val(strip(c[2])[3]) is not None:
+                        m = int_val(strip(c[2])[3])
+                        vals.append((m, "%s: `%s` (values below %d take the short form)" % (s[1], show(b.cond), m), b.term["loc"]))
+                        hit = True
+                    elif kind(c) == "bin" and c[1] == "<" and Giv.key(c[2]) == s[2] and int_val(c[3]) is not None:
+                        vals.append((int_val(c[3]), "%s: `%s`" % (s[1], show(b.cond)), b.term["loc"]))
+                        hit = True
+                if not hit:
+                    vals.append((None, "%s: no short-form test of %s found" % (s[1], s[2]), f.loc))
             elif s[0] == "array":
                 f = prog.fn(s[1])
                 v = f.vars.get(s[2])
@@ -167,7 +186,56 @@ def sib_obligations(prog):
                               "all sites of the %s must agree" % gname, ok,
                               "; ".join("%s -> %s" % (v[1], v[0]) for v in vals), props=props))
     dm = divmod_obligations(prog)
-    return obs + dm, {"groups": len(GROUPS), "divmod_pairs": len(dm)}
+    sg = signconv_obligations(prog)
+    return obs + dm + sg, {"groups": len(GROUPS), "divmod_pairs": len(dm), "sign_convention_pairs": len(sg)}
+
+
+# (writer of the one-bit y tag, reader that decompresses, properties): the writer derives the tag either from the quadratic
+# residuosity of y (secp256k1_fe_is_square_var: generators, Pedersen commitments, range-proof and BP++ generator points) or from
+# its parity (secp256k1_fe_is_odd: public keys, nonces, BP++ proof points); the reader must decompress with the matching primitive
+SIGN_PAIRS = [
+    ("secp256k1_generator_serialize", "secp256k1_generator_parse", {"C08", "C17"}),
+    ("secp256k1_bppp_generators_serialize", "secp256k1_bppp_generators_parse", {"C19"}),
+    ("secp256k1_pedersen_commitment_save", "secp256k1_pedersen_commitment_load", {"C08"}),
+    ("secp256k1_rangeproof_serialize_point", "secp256k1_rangeproof_verify_impl", {"C09", "C10"}),
+    ("secp256k1_bppp_serialize_pt", "secp256k1_bppp_parse_one_of_points", {"C19"}),
+    ("secp256k1_eckey_pubkey_serialize33", "secp256k1_eckey_pubkey_parse", {"C01", "C12"}),
+]
+_SQUARE = "secp256k1_fe_is_square_var"
+_ODD = "secp256k1_fe_is_odd"
+_XQUAD = "secp256k1_ge_set_xquad"
+_XO = "secp256k1_ge_set_xo_var"
+
+
+def signconv_obligations(prog):
+    g = prog.callgraph()
+
+    def reach(fn):
+        seen, stack = {fn}, [fn]
+        while stack:
+            for c in g.get(stack.pop(), ()):
+                if c not in seen:
+                    seen.add(c)
+                    stack.append(c)
+        return seen
+    obs = []
+    for (w, r, props) in SIGN_PAIRS:
+        fw, fr = prog.fn(w), prog.fn(r)
+        rw, rr = reach(w), reach(r)
+        conv = "square" if _SQUARE in rw else ("odd" if _ODD in rw else None)
+        if conv is None:
+            raise AnalysisBroken("R-SIB sign convention: %s derives its y tag from neither %s nor %s" % (w, _SQUARE, _ODD))
+        if conv == "square":
+            # a direct user of the residue decompression other than the parity decompression (which is built on it)
+            users = sorted(x for x in rr if x != _XO and _XQUAD in g.get(x, ()))
+            ok = bool(users)
+            det = "%s tags y by residuosity; %s decompresses with %s through %s" % (w, r, _XQUAD, ", ".join(users) or "NOTHING (parity decompression only: %s)" % (_XO in rr))
+        else:
+            ok = _XO in rr
+            det = "%s tags y by parity; %s %s %s" % (w, r, "reaches" if ok else "does NOT reach", _XO)
+        obs.append(Obligation("R-SIB", "R-SIB:sign-convention:%s" % r, fr.loc, r,
+                              "the reader %s must decompress points with the y convention its writer %s uses" % (r, w), ok, det, props=props))
+    return obs
 
 
 def divmod_scan(prog):
